@@ -486,7 +486,11 @@ class sptensor:
 
         # Check for the case where we accumulate over *all* dimensions
         if remdims.size == 0:
-            result = function_handle(self.vals.transpose()[0])
+            if self.nnz == 0:
+                # No stored values to accumulate
+                result = function_handle(np.array([], dtype=self.vals.dtype))
+            else:
+                result = function_handle(self.vals.transpose()[0])
             if isinstance(result, np.generic):
                 result = result.item()
             return result
